@@ -119,6 +119,11 @@ def bytesOracleStep (s : OSt) (toks : List String) : OSt × String :=
     -- multi-signatures and aggregates belong to different configured schemes: compared within a scheme
     let cls := if args.any (fun a => (splitChar '/' a).any (·.startsWith "a=")) then "/agg" else ""
     let key := (kind ++ cls, if kind == "block" then rest.headD out else out)
+    -- the bytes of a partial certificate do not name the participants of an aggregate (and need not: they
+    -- are neither hashed nor signed anywhere; Props/C12Bytes pc_agg_bytes_do_not_name_the_signer)
+    let desc := if kind == "pc" && cls != "" then
+        " ".intercalate (args.map fun a => if a.startsWith "a=" then "a=*/" ++ ((splitChar '/' a).getLastD "") else a)
+      else desc
     match s.seen.lookup key with
     | some d =>
       if d == desc then (s, "pass")
